@@ -120,71 +120,69 @@ Proof.
 Qed.
 
 (* ------------------------------------------------------------------ identifiers *)
-Definition safe_char (c : ascii) : bool :=
-  is_digit c || lowerp c || upperp c || Ascii.eqb c "_"%char || Ascii.eqb c "-"%char.
-Definition d2u (c : ascii) : ascii := if Ascii.eqb c "-"%char then "_"%char else c.
+Definition san (c : ascii) : ascii := if alnum c then c else "_"%char.
 
-Lemma safe_char_facts : forall c, safe_char c = true ->
-  is_us (d2u c) = true \/ (is_id_char (up (d2u c)) = true /\ is_id_char (d2u c) = true).
+Lemma san_facts : forall c, is_us (san c) = true \/ (is_id_char (up (san c)) = true /\ is_id_char (san c) = true).
 Proof.
   intros [b0 b1 b2 b3 b4 b5 b6 b7].
-  destruct b0, b1, b2, b3, b4, b5, b6, b7; vm_compute; intro H; try discriminate H; auto.
+  destruct b0, b1, b2, b3, b4, b5, b6, b7; vm_compute; auto.
 Qed.
 
-Lemma pascal_id_chars : forall s cap, forallb safe_char s = true ->
-  forallb is_id_char (pascal cap (dash_to_us s)) = true.
+Lemma pascal_id_chars : forall s cap, forallb is_id_char (pascal cap (sanitize s)) = true.
 Proof.
-  induction s as [|c s IH]; intros cap H; [reflexivity|].
-  cbn [forallb] in H. apply andb_true_iff in H. destruct H as [Hc Hs].
-  change (dash_to_us (c :: s)) with (d2u c :: dash_to_us s). cbn [pascal].
-  destruct (safe_char_facts c Hc) as [Hu|[Hup Hid]].
-  - rewrite Hu. apply IH, Hs.
-  - destruct (is_us (d2u c)); [apply IH, Hs|].
-    destruct cap; cbn [forallb]; rewrite ?Hup, ?Hid; cbn [andb]; apply IH, Hs.
+  induction s as [|c s IH]; intros cap; [reflexivity|].
+  change (sanitize (c :: s)) with (san c :: sanitize s). cbn [pascal].
+  destruct (san_facts c) as [Hu|[Hup Hid]].
+  - rewrite Hu. apply IH.
+  - destruct (is_us (san c)); [apply IH|].
+    destruct cap; cbn [forallb]; rewrite ?Hup, ?Hid; cbn [andb]; apply IH.
 Qed.
 
-Theorem listener_name_legal : forall n, forallb safe_char n = true -> is_legal_binding_name (listener_name n) = true.
+(* since C12-fix-dedup-and-identifier: for EVERY event name *)
+Theorem listener_name_legal : forall n, is_legal_binding_name (listener_name n) = true.
 Proof.
-  intros n H. unfold is_legal_binding_name, listener_name.
+  intros n. unfold is_legal_binding_name, listener_name.
   apply andb_true_iff. split.
-  - change (L "on" ++ pascal true (dash_to_us n)) with ("o"%char :: "n"%char :: pascal true (dash_to_us n)).
-    cbn [is_ts_identifier forallb]. rewrite (pascal_id_chars n true H). reflexivity.
-  - (* not a reserved word: no reserved word starts with o, n *)
-    change (L "on" ++ pascal true (dash_to_us n)) with ("o"%char :: "n"%char :: pascal true (dash_to_us n)).
+  - change (L "on" ++ pascal true (sanitize n)) with ("o"%char :: "n"%char :: pascal true (sanitize n)).
+    cbn [is_ts_identifier forallb]. rewrite (pascal_id_chars n true). reflexivity.
+  - change (L "on" ++ pascal true (sanitize n)) with ("o"%char :: "n"%char :: pascal true (sanitize n)).
     unfold is_reserved. apply negb_true_iff. apply not_true_iff_false. intro Hex.
     apply existsb_exists in Hex. destruct Hex as [w [Hw He]]. apply str_eqb_eq in He.
     cbn [reserved_words In] in Hw.
     repeat (destruct Hw as [<-|Hw]; [vm_compute in He; discriminate He|]). destruct Hw.
 Qed.
 
-Lemma name_char_safe : forall n, forallb name_char n = true -> kf_ident_chars n = false -> forallb safe_char n = true.
-Proof.
-  induction n as [|c n IH]; intros H K; [reflexivity|].
-  cbn [forallb] in H. apply andb_true_iff in H. destruct H as [Hc Hn].
-  unfold kf_ident_chars in K. cbn [existsb] in K. apply orb_false_iff in K. destruct K as [Kc Kn].
-  cbn [forallb]. rewrite (IH Hn Kn), andb_true_r.
-  unfold name_char in Hc. unfold ident_breaker in Kc. unfold safe_char.
-  apply orb_false_iff in Kc. destruct Kc as [K1 K2]. rewrite K1, K2 in Hc. rewrite !orb_false_r in Hc. exact Hc.
-Qed.
-
 (* ------------------------------------------------------------------ the listener records of an event list *)
 Record mlistener := { ml_ident : str; ml_event : str; ml_payload : str }.
+(* create_event_contexts: one record per distinct name, the first event of that name wins *)
 Definition model_listeners (l : evs) : list mlistener :=
-  map (fun e => {| ml_ident := listener_name (fst e); ml_event := fst e; ml_payload := payload_ts (snd e) |}) l.
+  map (fun e => {| ml_ident := listener_name (fst e); ml_event := fst e; ml_payload := payload_ts (snd e) |}) (dedup_first l).
 
-Lemma count_name_in n l : In n l -> 1 <= count_name n l.
+(* first occurrences of a list of names *)
+Fixpoint first_names (l : list str) : list str :=
+  match l with [] => [] | x :: r => x :: filter (fun y => negb (str_eqb y x)) (first_names r) end.
+Lemma map_fst_filter (e : str * str) (l : evs) :
+  map fst (filter (fun x => negb (str_eqb (fst x) (fst e))) l) = filter (fun y => negb (str_eqb y (fst e))) (map fst l).
+Proof. induction l as [|x r IH]; [reflexivity|]. cbn [filter map]. destruct (negb (str_eqb (fst x) (fst e))); cbn [map]; rewrite IH; reflexivity. Qed.
+Lemma dedup_first_names (l : evs) : map fst (dedup_first l) = first_names (map fst l).
+Proof. induction l as [|e r IH]; [reflexivity|]. cbn [dedup_first map first_names]. rewrite map_fst_filter, IH. reflexivity. Qed.
+Lemma first_names_in l n : In n (first_names l) <-> In n l.
 Proof.
-  induction l as [|x r IH]; intros H; [destruct H|]. cbn [count_name].
-  destruct H as [->|H]; [rewrite str_eqb_refl; lia|]. specialize (IH H). lia.
+  induction l as [|x r IH]; [tauto|]. cbn [first_names In]. rewrite filter_In, IH. split.
+  - intros [H|[H _]]; auto.
+  - intros [H|H]; [auto|]. destruct (list_eq_dec ascii_dec n x) as [E|N]; [left; congruence|].
+    right. split; [exact H|]. apply negb_true_iff. apply str_eqb_neq. exact N.
 Qed.
-Lemma nodup_of_counts : forall l, (forall n, In n l -> kf_dup_name l n = false) -> NoDup l.
+Lemma first_names_nodup l : NoDup (first_names l).
 Proof.
-  induction l as [|x r IH]; intros H; [constructor|]. constructor.
-  - intro Hin. specialize (H x (or_introl eq_refl)). unfold kf_dup_name in H. cbn [count_name] in H.
-    rewrite str_eqb_refl in H. pose proof (count_name_in x r Hin). apply Nat.leb_gt in H. lia.
-  - apply IH. intros n Hn. specialize (H n (or_intror Hn)). unfold kf_dup_name in *. cbn [count_name] in H.
-    apply Nat.leb_gt in H. apply Nat.leb_gt. lia.
+  induction l as [|x r IH]; [constructor|]. cbn [first_names]. constructor.
+  - intro H. apply filter_In in H. destruct H as [_ H]. rewrite str_eqb_refl in H. discriminate H.
+  - apply NoDup_filter. exact IH.
 Qed.
+(* the first event of a name is the one that is kept *)
+Lemma dedup_first_head e r : exists r', dedup_first (e :: r) = e :: r'.
+Proof. eexists. reflexivity. Qed.
+
 Lemma nodup_map_inj {A B} (f : A -> B) : forall l, NoDup l ->
   (forall x y, In x l -> In y l -> f x = f y -> x = y) -> NoDup (map f l).
 Proof.
@@ -196,37 +194,33 @@ Qed.
 
 Theorem listeners_partial : forall (l : evs),
   let names := map fst l in
-  (forall n, In n names -> forallb name_char n = true) ->
-  (forall n, In n names -> kf_dup_name names n = false) ->
-  (forall n, In n names -> kf_ident_chars n = false) ->
   (forall n, In n names -> kf_collision names n = false) ->
   let ls := model_listeners l in
-  (* one listener per distinct name, subscribed to exactly that name *)
-  map ml_event ls = names /\ NoDup (map ml_event ls) /\
+  (* one listener per distinct name (however often it is emitted), subscribed to exactly that name *)
+  map ml_event ls = first_names names /\ NoDup (map ml_event ls) /\
   (forall n, In n names -> exists x, In x ls /\ ml_event x = n /\ forall y, In y ls -> ml_event y = n -> y = x) /\
-  (* legal and pairwise distinct function identifiers *)
+  (* legal (for every name) and pairwise distinct function identifiers *)
   (forall x, In x ls -> is_legal_binding_name (ml_ident x) = true) /\
   NoDup (map ml_ident ls).
 Proof.
-  intros l names Hchars Hdup Hid Hcol ls.
-  assert (Hev : map ml_event ls = names).
-  { unfold ls, model_listeners, names. rewrite map_map. reflexivity. }
-  assert (Hnd : NoDup names) by (apply nodup_of_counts; exact Hdup).
-  assert (Hidents : map ml_ident ls = map listener_name names).
-  { unfold ls, model_listeners, names. rewrite !map_map. reflexivity. }
+  intros l names Hcol ls.
+  assert (Hev : map ml_event ls = first_names names).
+  { unfold ls, model_listeners, names. rewrite map_map. cbn [ml_event]. rewrite <- dedup_first_names. reflexivity. }
+  assert (Hnd : NoDup (first_names names)) by apply first_names_nodup.
+  assert (Hidents : map ml_ident ls = map listener_name (first_names names)).
+  { unfold ls, model_listeners, names. rewrite map_map. cbn [ml_ident]. rewrite <- dedup_first_names, map_map. reflexivity. }
   split; [exact Hev|]. split; [rewrite Hev; exact Hnd|]. split; [|split].
-  - intros n Hn. rewrite <- Hev in Hn. apply in_map_iff in Hn. destruct Hn as [x [Hx Hin]].
+  - intros n Hn. apply first_names_in in Hn. rewrite <- Hev in Hn. apply in_map_iff in Hn. destruct Hn as [x [Hx Hin]].
     exists x. split; [exact Hin|]. split; [exact Hx|]. intros y Hy Hyn.
-    (* two listeners with the same event name are the same element: names are duplicate-free *)
     clear - Hnd Hev Hin Hy Hx Hyn. subst n. rewrite <- Hev in Hnd. clear Hev.
     induction ls as [|z r IH]; [destruct Hin|]. cbn [map] in Hnd. inversion Hnd as [|? ? Hz Hr]; subst.
     destruct Hin as [->|Hin], Hy as [->|Hy]; auto.
     + exfalso. apply Hz. rewrite <- Hyn. apply in_map. exact Hy.
     + exfalso. apply Hz. rewrite Hyn. apply in_map. exact Hin.
   - intros x Hx. unfold ls, model_listeners in Hx. apply in_map_iff in Hx. destruct Hx as [e [<- He]]. cbn [ml_ident].
-    assert (Hn : In (fst e) names) by (unfold names; apply in_map; exact He).
-    apply listener_name_legal. apply name_char_safe; [apply Hchars, Hn|apply Hid, Hn].
+    apply listener_name_legal.
   - rewrite Hidents. apply nodup_map_inj; [exact Hnd|]. intros a b Ha Hb Hab.
+    apply (proj1 (first_names_in _ _)) in Ha. apply (proj1 (first_names_in _ _)) in Hb.
     destruct (list_eq_dec ascii_dec a b) as [E|N]; [exact E|]. exfalso.
     specialize (Hcol b Hb). unfold kf_collision in Hcol.
     assert (existsb (fun m => negb (str_eqb m b) && str_eqb (listener_name m) (listener_name b)) names = true) as Hex.
@@ -290,32 +284,38 @@ Definition mk1 (body : list stmt) (cmd : bool) : project :=
 Definition ok_ (e : expr) : stmt := SExpr (M0 e "ok").
 Definition worker_project : project := mk1 worker_body true.
 
-(* witnesses, one per class: in the domain, inside exactly that class, and the oracle complains *)
-Definition w_dup := mk1 [ok_ (emit app "tick" (XLit LInt)); ok_ (emit app "tick" (XLit LInt))] true.
-Definition w_ident := mk1 [ok_ (emit app "user:created/now" (XLit LInt))] true.
+(* witnesses, one per remaining class: in the domain, inside exactly that class, and the oracle complains *)
 Definition w_collide := mk1 [ok_ (emit app "a-b" (XLit LInt)); ok_ (emit app "a_b" (XLit LInt))] true.
-Definition w_tuple := mk1 [ok_ (emit app "pair" (XTuple [V "n"; S_ "x"]))] true.
-Definition w_path := mk1 [ok_ (emit app "status" (XPath [L "Status"; L "Active"]))] true.
+Definition w_collide2 := mk1 [ok_ (emit app "a:b" (XLit LInt)); ok_ (emit app "a/b" (XLit LInt))] true.
 Definition w_name := mk1 [SLet (PIdent (L "data")) (Some (XCall (V "compute") [])); ok_ (emit app "computed" (V "data"))] true.
 Definition w_lastseg := mk1 [ok_ (emit app "items" (V "items"))] true.
 Definition w_ctor := mk1 [SLet (PIdent (L "v")) (Some (XCall (XPath [L "Vec"; L "new"]) [])); ok_ (emit app "fresh" (V "v"))] true.
 Definition w_scope := mk1 [SLet (PIdent (L "p")) (Some (XCall (V "compute") [])); ok_ (emit app "shadowed" (V "p"))] true.
 Definition w_nocmd := mk1 [ok_ (emit app "tick" (XLit LInt))] false.
+(* witnesses of the repaired defects: they now satisfy the property *)
+Definition w_dup := mk1 [ok_ (emit app "tick" (XLit LInt)); ok_ (emit app "tick" (XLit LInt))] true.
+Definition w_dup2 := mk1 [ok_ (emit app "tick" (XLit LInt)); ok_ (emit (V "window") "tick" (S_ "other payload"))] true.
+Definition w_ident := mk1 [ok_ (emit app "user:created/now" (XLit LInt))] true.
+Definition w_tuple := mk1 [ok_ (emit app "pair" (XTuple [V "n"; S_ "x"]))] true.
+Definition w_path := mk1 [ok_ (emit app "status" (XPath [L "Status"; L "Active"]))] true.
 
 Definition witness (w : project) (cls : string) : Prop :=
   in_domain w = true /\ classes_of w = [L cls] /\ model_complaints w <> [] /\
   forallb (explained w) (model_complaints w) = true.
-Lemma witness_dup : witness w_dup "kf_dup_name". Proof. vm_compute. repeat split; congruence. Qed.
-Lemma witness_ident : witness w_ident "kf_ident_chars". Proof. vm_compute. repeat split; congruence. Qed.
+Definition repaired (w : project) : Prop :=
+  in_domain w = true /\ classes_of w = [] /\ model_complaints w = [].
 Lemma witness_collide : witness w_collide "kf_collision". Proof. vm_compute. repeat split; congruence. Qed.
-Lemma witness_tuple : witness w_tuple "kf_tuple_payload". Proof. vm_compute. repeat split; congruence. Qed.
-Lemma witness_path : witness w_path "kf_path_payload". Proof. vm_compute. repeat split; congruence. Qed.
+Lemma witness_collide2 : witness w_collide2 "kf_collision". Proof. vm_compute. repeat split; congruence. Qed.
 Lemma witness_name : witness w_name "kf_name_fallback". Proof. vm_compute. repeat split; congruence. Qed.
 Lemma witness_lastseg : witness w_lastseg "kf_last_segment". Proof. vm_compute. repeat split; congruence. Qed.
 Lemma witness_ctor : witness w_ctor "kf_ctor_guess". Proof. vm_compute. repeat split; congruence. Qed.
 Lemma witness_scope : witness w_scope "kf_scope". Proof. vm_compute. repeat split; congruence. Qed.
 Lemma witness_nocmd : witness w_nocmd "kf_no_command". Proof. vm_compute. repeat split; congruence. Qed.
+Lemma repaired_dup : repaired w_dup /\ repaired w_dup2. Proof. vm_compute. repeat split; reflexivity. Qed.
+Lemma repaired_ident : repaired w_ident /\ listener_name (L "user:created/now") = L "onUserCreatedNow". Proof. vm_compute. repeat split; reflexivity. Qed.
+Lemma repaired_tuple : repaired w_tuple. Proof. vm_compute. repeat split; reflexivity. Qed.
+Lemma repaired_path : repaired w_path. Proof. vm_compute. repeat split; reflexivity. Qed.
 
 Theorem full_statement_needs_classes :
   exists p, in_domain p = true /\ model_complaints p <> [].
-Proof. exists w_dup. destruct witness_dup as [H [_ [H2 _]]]. split; assumption. Qed.
+Proof. exists w_collide. destruct witness_collide as [H [_ [H2 _]]]. split; assumption. Qed.
